@@ -3,6 +3,9 @@
 // every op, for every variable: getType + canonical deep dump (const accessors), all to* coercions,
 // the == matrix, and (internal section, read through `#define private public`, never driven
 // through it) the canonical heap shape: sharing structure and every reference count.
+// Round 2: `assignstr i p j sp` / `assignnode i p j sp k` hand operator=(const String&/List&/Array&/HashMap&) a
+// reference INTO the payload of variable j (possibly the assigned Variant itself); `csets` / `csetstr` / `csetnode`
+// run the converting constructors; scalar tokens dinf / d-inf / d-0 (judged by the oracle in checks/C07.py).
 #include "vh.hpp"
 #include <math.h>
 #define private public
